@@ -73,8 +73,10 @@ class Dispatch(Unit):
         for entry in ("init_device", "SCSIDevice", "ISCSIDevice"):
             for hs in (True, False):
                 for hi in (True, False):
-                    for rw in (False, True):
+                    for rw in (False, True, 1, 0):  # the flag is documented as a truth value: 1 / 0 are as good as True / False
                         for ini in ("explicit", "empty", "default"):
+                            if rw in (1, 0) and rw is not True and rw is not False and (entry == "ISCSIDevice" or ini != "default" or not (hs and hi)):
+                                continue
                             if entry == "SCSIDevice" and (ini != "default" or not hi):
                                 continue
                             if entry == "ISCSIDevice" and (rw or not hs or ini == "default"):
